@@ -359,6 +359,19 @@ pub fn root_alphabet(prog: &Program) -> Vec<Item> {
         v.extend(field_items(prog, s, f));
     }
     v.extend(level_wide_items());
+    // a list holding one literal is a list, not that literal; a name differing from a member's
+    // only in case is an unknown name (both for the first plain scalar member)
+    if let Some(f) = s.fields.iter().find(|f| matches!(f.ty, Ty::U32 | Ty::OptU32 | Ty::Str) && !f.skip && !f.flatten && !f.multiple && f.with == With::None) {
+        let name = s.eff_name(f);
+        if !name.contains('-') && !name.starts_with("r#") {
+            v.push(Item::list(&name, vec![Item::lit(if f.ty == Ty::Str { "\"s\"" } else { "5" })]));
+            let other: String = if name.chars().any(|c| c.is_ascii_lowercase()) { name.to_ascii_uppercase() } else { name.to_ascii_lowercase() };
+            let taken = |n: &str| prog.decls.iter().any(|d| matches!(d, Decl::Struct(x) if x.fields.iter().any(|g| x.eff_name(g) == n)));
+            if other != name && !taken(&other) && s.allow_unknown != Some(true) {
+                v.push(Item::nv(&other, if f.ty == Ty::Str { "\"s\"" } else { "5" }));
+            }
+        }
+    }
     v
 }
 
@@ -567,6 +580,8 @@ pub fn enum_list_alphabet(prog: &Program) -> Vec<Item> {
         out.push(Item::list(n, vec![Item::nv("x", "1"), Item::nv("p_q", "2")]));
         out.push(Item::list(n, vec![Item::nv("p_q", "2"), Item::nv("x", "1"), Item::nv("r", "3")]));
         out.push(Item::list(n, vec![]));
+        // a list holding one literal is a list (a newtype variant hands it to its inner type as such)
+        out.push(Item::list(n, vec![Item::lit("3")]));
     }
     // a qualified path whose last segment is a variant name is not that variant
     if let Some(n) = names.iter().find(|n| !n.contains('-')) {
@@ -1139,6 +1154,14 @@ pub fn valid_alphabet(prog: &Program) -> Vec<Item> {
     if s.allows_unknown() && !s.fields.iter().any(|f| f.flatten) {
         v.push(Item::nv("zz", "1"));
         v.push(Item::list("zz", vec![Item::word("a")]));
+        // a name that differs from a member's only in case is as unknown as any other
+        if let Some(f) = s.fields.iter().find(|f| !f.skip && !f.flatten) {
+            let n = s.eff_name(f);
+            let other: String = if n.chars().any(|c| c.is_ascii_lowercase()) { n.to_ascii_uppercase() } else { n.to_ascii_lowercase() };
+            if other != n && !n.contains('-') && !n.starts_with("r#") && !s.fields.iter().any(|g| s.eff_name(g) == other) {
+                v.push(Item::nv(&other, "77"));
+            }
+        }
         for f in s.fields.iter().filter(|f| f.skip) {
             let n = s.eff_name(f);
             if !n.contains('-') {
